@@ -159,7 +159,9 @@ class OutcomeBuilder:
     def fresh(self, cname_or_cls, name="new"):
         r = self.ctx.fresh(cname_or_cls, name)
         self.o.fresh.append((r, cname_or_cls))
-        if not (isinstance(cname_or_cls, str) and cname_or_cls == "<container>"):
+        if isinstance(cname_or_cls, str) and cname_or_cls == "<container>":
+            self.o.post.write("selems", r, z3.Empty(T.SSeq))      # a new list holds no strings (mirrors the executor's allocation)
+        else:
             # a new instance starts without dynamic attributes and with an empty neighbor memo
             self.o.post.write_where("dyn_has", lambda a, r=r: (T.eq(a[0], r), z3.BoolVal(False)))
             self.o.post.write_where("memo_has", lambda a, r=r: (T.eq(a[0], r), z3.BoolVal(False)))
